@@ -24,3 +24,17 @@ package pathbadger
 //@   ensures err == nil ==> old(d.meta.value.LastFinalizedVersion) != nil && version < old(*d.meta.value.LastFinalizedVersion) && version == old(d.meta.value.EarliestVersion)
 //@   precall badger/v4\.WriteBatch\)\.Delete$ :: exists && version < lastFinalizedVersion
 //@   note data is removed only for a version that is finalized, is the earliest retained one and is not the last finalized one, and never on a read-only database or while a multipart restore is in progress: every other finalized version is left alone by Prune
+
+// ---- chunk (multipart) commits vs Finalize (C06, C12) ----
+//
+// Finalize moves the nodes of a finalized root from their pending keys
+// (version, type, seqNo, path) to the finalized keys ONLY through the root's
+// updated-nodes index, and afterwards deletes every pending key of the version.
+// A batch whose nodes went to pending keys (seqNo != 0) must therefore have
+// stored that index. Chunk-mode batches never store it.
+
+//@ func badgerBatch.Commit
+//@   props C06 C12
+//@   requires ba != nil
+//@   ensures-local err == nil && old(ba.seqNo) != 0 ==> !old(ba.chunk)
+//@   note a successfully committed batch that wrote its nodes under a non-zero sequence number has recorded the root's updated-nodes index (which only non-chunk batches do). FAILS for a chunk batch with a non-zero sequence number - reachable by aborting a multipart restore and starting it again (StartMultipartInsert reserves the NEXT sequence number of the version each time): known finding F8
